@@ -158,11 +158,17 @@ static void step(Vec& v, M& m, int op, int base)
             const usize n = verif_nondet_size(), b = verif_nondet_size();
             verif_assume(n <= KMAX && b <= BMAX && b >= live_payload<LT>(m));
             const Snap s = snap(v, m);
+            const usize mem_before = v.memory_consumption();
             v.reserve(n, b);
             if (n > m.cap)
             {
                 m.cap = n;
                 m.budget = b;
+                // C05: not more than it consumed before or than a freshly constructed vector of the same capacity and budget
+                const Vec fresh = make_vec<LT, Vec>(n, LT::NVARY ? b : 0, m.fixed, Alloc(1));
+                const usize lim = fresh.memory_consumption() > mem_before ? fresh.memory_consumption() : mem_before;
+                verif_assert(v.memory_consumption() <= lim, base + 93);
+                verif_assert(verif_block_size(v.data_begin()) == v.memory_consumption(), base + 94);
             }
             else
             {
